@@ -35,6 +35,20 @@ fn main() {
     report::install_panic_hook();
     report::install_fatal_signal_journal();
     match args[1].as_str() {
+        "sweepdump" => {
+            // debugging aid: the positions the slider-table sweep builds for one entry
+            let sq: u8 = args[2].parse().unwrap();
+            let rook = args[3] == "rook";
+            let subset: u32 = args[4].parse().unwrap();
+            let mut rng = rng::Rng::new(1, 1);
+            for _ in 0..8 {
+                match gen::g_slider_entry(sq, rook, subset, true, &mut rng) {
+                    Some(p) => println!("{}", p.to_fen()),
+                    None => println!("none"),
+                }
+            }
+            std::process::exit(0);
+        }
         "selftest" => {
             report::init_output();
             let code = match selftest() {
